@@ -42,6 +42,17 @@ HasMultiRecordUnion(t, names, seen) ==
     [] t.k = "record" -> \E i \in 1..Len(t.fields) : HasMultiRecordUnion(t.fields[i].type, names, seen)
     [] t.k = "ref" -> IF t.name \in seen THEN FALSE ELSE HasMultiRecordUnion(names[t.name], names, seen \cup {t.name})
     [] OTHER -> FALSE
+\* a union branch that refers BY NAME to an enum or fixed (what return_record_name reports for it is not pinned: the library cannot tell
+\* such a reference from a record's)
+RECURSIVE HasNonRecordRefBranch(_, _, _)
+HasNonRecordRefBranch(t, names, seen) ==
+  CASE t.k = "union" -> \/ \E i \in 1..Len(t.br) : t.br[i].k = "ref" /\ names[t.br[i].name].k # "record"
+                        \/ \E i \in 1..Len(t.br) : HasNonRecordRefBranch(t.br[i], names, seen)
+    [] t.k = "array" -> HasNonRecordRefBranch(t.items, names, seen)
+    [] t.k = "map" -> HasNonRecordRefBranch(t.values, names, seen)
+    [] t.k = "record" -> \E i \in 1..Len(t.fields) : HasNonRecordRefBranch(t.fields[i].type, names, seen)
+    [] t.k = "ref" -> IF t.name \in seen THEN FALSE ELSE HasNonRecordRefBranch(names[t.name], names, seen \cup {t.name})
+    [] OTHER -> FALSE
 Ambiguous(t, v, names) == \/ (HasBytesVal(v) /\ HasArrayType(t, names, {}))
                           \/ (HasOddTuple(v) /\ HasUnionType(t, names, {}))
 
@@ -122,6 +133,11 @@ Judge_union_rt(c) ==
              ELSE LET re == Encode(t, nn.v, names, o) IN
                   IF ~re.ok \/ re.b # enc.b THEN Cl("C09.closure", "skip")
                   ELSE Tri("C09.closure", c.rewrite.ok /\ c.rewrite.bytes = w.bytes),
+             \* return_record_name: pairs for record branches (inline or by name, "error" records included), bare values otherwise
+             IF "recname" \notin DOMAIN c \/ ~w.ok THEN Cl("C09.record_name", "skip")
+             ELSE IF HasNonRecordRefBranch(t, names, {}) THEN Cl("C09.record_name", "unspec")
+             ELSE LET nr == NormR(t, d, names, o) IN
+                  IF ~nr.ok THEN Cl("C09.record_name", "skip") ELSE Tri("C09.record_name", c.recname.ok /\ VEq(c.recname.v, nr.v)),
              \* the *_override variant: a pair only where the union has more than one named type; same closure
              IF ~no.ok \/ ~w.ok THEN Cl("C09.named_override", "skip") ELSE Tri("C09.named_override", c.named_o.ok /\ VEq(c.named_o.v, no.v)),
              IF ~no.ok \/ ~w.ok \/ ~c.named_o.ok THEN Cl("C09.closure_override", "skip")
